@@ -19,7 +19,7 @@ class Prop(GraphProp):
             "an observed recompute-after-eviction; distinct = distinct sha256 of the event log")
     probes = ["fmt_implicit", "kpm_world", "linop_twin_requested", "internal_requested", "recompute_after_eviction", "eviction_observed", "op_view_create", "op_on_view", "op_array",
               "single_fresh_checked", "multi_comp_world", "chain_world", "illposed_world", "illposed_raise", "domain_sparse", "domain_sym",
-              "fmt_scalar_idx", "fmt_scalar_vecs", "fmt_dict", "fmt_list", "final_checked"]
+              "fmt_scalar_idx", "fmt_scalar_vecs", "fmt_dict", "fmt_list", "fmt_nested", "fmt_symkeys", "fmt_sympy_expr", "domain_tracer", "domain_sq", "final_checked"]
     assumptions = ["oracle: a fresh computation of the same world in the same process, walked in ascending order",
                    "float verdicts use |a-b| <= 1e-9(1+max|a|); bit-different-but-close results are counted, not alarmed",
                    "bounds: total order <= 4 (1 parameter), 3 (2), 2 (3); <= 4 blocks of size <= 3"]
